@@ -30,3 +30,5 @@ Definition c15_files_verdicts (t : tbl) (l : list file) : list verdict :=
   fst (check_files_verdicts (o_letter t) (o_fold t) l).
 Definition c15_zip_verdicts (t : tbl) (l : list entry) : list verdict :=
   fst (check_zip_verdicts (o_letter t) (o_fold t) l).
+Definition c15_check_dir (t : tbl) (l : list file) : checked := check_dir (o_letter t) (o_fold t) l.
+Definition c15_create_from_dir (t : tbl) (l : list file) : option (list entry) := create_from_dir (o_letter t) (o_fold t) l.
